@@ -61,6 +61,9 @@ type MiniKnobs struct {
 	H2DCycles, D2HCycles int
 }
 
+// debugAttach, when set (by a diagnosis file compiled into the test binary), is called with every built platform.
+var debugAttach func(p *Platform)
+
 // Platform is an assembled system.
 type Platform struct {
 	Spec   Spec
@@ -134,6 +137,9 @@ func Build(spec Spec, ch *choice.Source, scratch string) *Platform {
 	}
 	p.Driver = p.Sim.GetComponentByName("Driver").(*driver.Driver)
 	driver.VerifYield = p.Sched.Yield
+	if debugAttach != nil {
+		debugAttach(p)
+	}
 	return p
 }
 
